@@ -2,6 +2,7 @@ package rules
 
 import (
 	"fmt"
+	"go/token"
 	"go/types"
 	"strings"
 
@@ -134,5 +135,98 @@ func checkFlagsThroughMetadata(c *core.Ctx, rule string) {
 				c.Violate(rule, key, c.P.Pos(ins.Pos()), fmt.Sprintf("the metadata entry is written with item flags %s while the metadata fetch helper takes OrigFlags from the item flags: after this write every read of the key returns these flags instead of the ones last set", strings.Join(uniq(bad), ", ")))
 			}
 		})
+	}
+}
+
+// runR415 (R4.15, shared as R9.10): every loop of the chunking backend that issues one request per chunk addresses
+// chunk keys 0, 1, 2, ... in order: the index handed to the chunk-key constructor is the loop's own counter (not an
+// offset of it), which starts at 0 and advances by 1; loops driven by the stored metadata run while counter <
+// NumChunks. A sweep that starts at 1, or writes chunk n under index n+1, leaves an entry of the key unread, untouched
+// (it keeps its old expiry) or undeleted.
+func runR415(c *core.Ctx, rule string, prods map[*ssa.Function]keyProducer) {
+	n := 0
+	for _, fn := range pkgFuncs(c, relChunked) {
+		loops := ssax.Loops(fn)
+		counts := map[string]int{}
+		ssax.Instrs(fn, func(ins ssa.Instruction) {
+			cc := ssax.CallOf(ins)
+			if cc == nil || !strings.HasPrefix(ssax.CalleeName(cc), pBinprot+".Write") || len(cc.Args) < 2 {
+				return
+			}
+			for _, d := range ssax.Defs(cc.Args[1]) {
+				var call *ssa.Call
+				switch x := d.(type) {
+				case *ssa.Call:
+					call = x
+				case *ssa.Extract:
+					call, _ = x.Tuple.(*ssa.Call)
+				}
+				if call == nil {
+					continue
+				}
+				kp, ok := prods[call.Call.StaticCallee()]
+				if !ok || kp.via.Signature.Params().Len() < 2 {
+					continue
+				}
+				n++
+				key := ordinalKey(counts, core.FuncName(fn)+"#chunk-sweep:"+strings.TrimPrefix(ssax.CalleeName(cc), pBinprot+"."))
+				pos := c.P.Pos(ins.Pos())
+				idx := ssax.Unwrap(call.Call.Args[1])
+				l := ssax.InnermostLoop(loops, ins.Block())
+				phi, isPhi := idx.(*ssa.Phi)
+				if l == nil {
+					c.Violate(rule, key, pos, "a request for a numbered chunk is issued outside a loop over the key's chunks")
+					continue
+				}
+				if !isPhi {
+					c.Violate(rule, key, pos, "the chunk index ("+idx.String()+") is not the loop's own counter: chunk n is addressed under another index, so one entry of the key is never reached and another is addressed that may not exist")
+					continue
+				}
+				// the counter may be the phi of this loop or of an enclosing structure (set: counter lives in the same loop)
+				if phi.Block() != l.Header {
+					c.Violate(rule, key, pos, "the chunk index is not the induction variable of the enclosing loop")
+					continue
+				}
+				startsAt0, stepsBy1 := false, false
+				for i, e := range phi.Edges {
+					if !l.Blocks[phi.Block().Preds[i]] {
+						if k, ok := ssax.ConstInt(e); ok && k == 0 {
+							startsAt0 = true
+						}
+					} else if bo, ok := e.(*ssa.BinOp); ok && bo.Op == token.ADD && bo.X == ssa.Value(phi) {
+						if k, ok := ssax.ConstInt(bo.Y); ok && k == 1 {
+							stepsBy1 = true
+						}
+					}
+				}
+				bounded, iterDriven := false, false
+				for b := range l.Blocks {
+					ifi, ok := b.Instrs[len(b.Instrs)-1].(*ssa.If)
+					if !ok {
+						continue
+					}
+					if bo, ok := ifi.Cond.(*ssa.BinOp); ok && bo.Op == token.LSS && bo.X == ssa.Value(phi) && isFieldLoad(bo.Y, "NumChunks") {
+						bounded = true
+					}
+					if call, ok := ifi.Cond.(*ssa.Call); ok && call.Call.StaticCallee() != nil && call.Call.StaticCallee().Name() == "More" {
+						iterDriven = true
+					}
+				}
+				var bad []string
+				if !startsAt0 {
+					bad = append(bad, "the sweep does not start at chunk 0")
+				}
+				if !stepsBy1 {
+					bad = append(bad, "the counter does not advance by 1")
+				}
+				if !bounded && !iterDriven {
+					bad = append(bad, "the loop is bounded neither by counter < NumChunks nor by the chunk iterator")
+				}
+				c.Check(len(bad) == 0, rule, key, pos, "chunk keys 0, 1, 2, ... addressed by the loop's own counter", strings.Join(bad, "; ")+": an entry of the key is never read, touched or deleted")
+			}
+		})
+	}
+	if n == 0 {
+		c.Undecided(rule, "chunked#chunk-sweeps", "-", "no request for a numbered chunk key found")
 	}
 }
